@@ -24,6 +24,10 @@ pub enum Mode {
 pub enum Op {
     /// `Rc::new(Node{..})`; the new handle becomes a root
     New(Vec<DAct>),
+    /// `Rc::new_uninit()`, write the value, store a clone of handle `target` in
+    /// it and record the adoption while the new object is still
+    /// `Rc<MaybeUninit<T>>`, then `assume_init`; the new handle becomes a root
+    NewUninitAdopted { target: u16, loopback: bool },
     /// clone the handle instance selected by `h`; the clone becomes a root
     CloneH(u16),
     /// drop root `r`
@@ -145,6 +149,7 @@ pub fn op_compact(op: &Op) -> String {
     match op {
         Op::New(d) if d.is_empty() => "New".into(),
         Op::New(d) => format!("New{{{}}}", d.iter().map(dact_compact).collect::<Vec<_>>().join(",")),
+        Op::NewUninitAdopted { target, loopback } => format!("NewUninitAdopted(<-{}{})", target, if *loopback { ",loop" } else { "" }),
         Op::CloneH(h) => format!("Clone({})", h),
         Op::DropRoot(r) => format!("Drop({})", r),
         Op::DropClosureRoots(h) => format!("DropClosureRoots({})", h),
